@@ -11,21 +11,21 @@ From Coq Require Import Permutation.
 Local Open Scope N_scope.
 
 (* ---- bookkeeping = ledger: the entries of the pending activation of n are exactly the calls waiting for n, in arrival order *)
-Theorem C19_ledger : forall cf h st tr n, wk_services cf -> after cf h = (st, tr) ->
+Theorem C19_ledger : forall cf h st tr n, wk_services cf /\ wk_history h -> after cf h = (st, tr) ->
   pend_entries st.(st_pend) n = map entry_of (waiting tr n).
 Proof. exact ledger. Qed.
 Print Assumptions C19_ledger.
 
 (* ---- exactly once, globally: no call ever meets two fates (delivery, StartServiceByName reply, error, or drop), and
         every fate belongs to a call that arrived *)
-Theorem C19_one_fate : forall cf h st tr, wk_services cf -> after cf h = (st, tr) ->
+Theorem C19_one_fate : forall cf h st tr, wk_services cf /\ wk_history h -> after cf h = (st, tr) ->
   NoDup (fated tr) /\ (forall i, In i (fated tr) -> exists c, In c (calls tr) /\ c.(c_id) = i).
 Proof. exact one_fate. Qed.
 Print Assumptions C19_one_fate.
 
 (* ---- at most one start per activation: a process is started for n only if nobody is waiting for n, one process per
         step, for the call arriving in that step, which waits afterwards *)
-Theorem C19_spawn_once : forall cf h st tr e sid n x, wk_services cf -> after cf h = (st, tr) ->
+Theorem C19_spawn_once : forall cf h st tr e sid n x, wk_services cf /\ wk_history h -> after cf h = (st, tr) ->
   In (OSpawn sid n x) (snd (step cf st e)) ->
   waiting tr n = [] /\
   snd (step cf st e) = [OSpawn sid n x] /\
@@ -33,14 +33,14 @@ Theorem C19_spawn_once : forall cf h st tr e sid n x, wk_services cf -> after cf
 Proof. exact spawn_once. Qed.
 Print Assumptions C19_spawn_once.
 
-Theorem C19_no_spawn_while_waiting : forall cf h st tr e sid n x, wk_services cf -> after cf h = (st, tr) ->
+Theorem C19_no_spawn_while_waiting : forall cf h st tr e sid n x, wk_services cf /\ wk_history h -> after cf h = (st, tr) ->
   waiting tr n <> [] -> ~ In (OSpawn sid n x) (snd (step cf st e)).
 Proof. exact no_spawn_while_waiting. Qed.
 Print Assumptions C19_no_spawn_while_waiting.
 
 (* ---- the service takes the name: held messages exactly once, in arrival order, subject to policy; StartServiceByName
         callers answered; nothing is left waiting.  (Together with C19_one_fate: never again.) *)
-Theorem C19_held_once_in_order : forall cf h st tr c s k, wk_services cf -> after cf h = (st, tr) ->
+Theorem C19_held_once_in_order : forall cf h st tr c s k, wk_services cf /\ wk_history h -> after cf h = (st, tr) ->
   connected st c = true -> assoc k st.(st_owners) = None ->
   let W := waiting tr (Wk k) in
   let o := snd (step cf st (ERequest c s k)) in
@@ -56,7 +56,7 @@ Print Assumptions C19_held_once_in_order.
 (* ---- failure: the started process exits with a status other than 0, is killed by a signal or cannot be executed: every
         caller waiting for a name whose pending activation has the same Exec line is answered exactly once (connected:
         error; gone: dropped), and those names have nobody waiting afterwards; other names are untouched *)
-Theorem C19_failure_each_waiter_once : forall cf h st tr sid r p er, wk_services cf -> after cf h = (st, tr) ->
+Theorem C19_failure_each_waiter_once : forall cf h st tr sid r p er, wk_services cf /\ wk_history h -> after cf h = (st, tr) ->
   find_sid sid st.(st_pend) = Some p -> child_error r = Some er ->
   let o := snd (step cf st (EChild sid r)) in
   let same := filter (fun q => p_exec q =? p_exec p) st.(st_pend) in
@@ -68,7 +68,7 @@ Proof. exact failure_each_waiter_once. Qed.
 Print Assumptions C19_failure_each_waiter_once.
 
 (* ---- the start timeout passes *)
-Theorem C19_timeout_each_waiter_once : forall cf h st tr sid p, wk_services cf -> after cf h = (st, tr) ->
+Theorem C19_timeout_each_waiter_once : forall cf h st tr sid p, wk_services cf /\ wk_history h -> after cf h = (st, tr) ->
   find_sid sid st.(st_pend) = Some p ->
   let o := snd (step cf st (ETimeout sid)) in
   o = OKill sid :: map (fail_to tr ETimedOut) (waiting tr p.(p_name)) /\
@@ -82,13 +82,39 @@ Theorem C19_exit_zero_ignored : forall cf st sid, step cf st (EChild sid (Exited
 Proof. exact exit_zero_ignored. Qed.
 Print Assumptions C19_exit_zero_ignored.
 
+(* ---- reloading the configuration (ReloadConfig, SIGHUP, .service files installed or removed): nobody is answered, nothing is
+        started, every pending activation and every waiting call stays as it is.  All theorems above quantify over histories
+        that contain such events, so what was pending before a reload is still resolved exactly once afterwards *)
+Theorem C19_reload_keeps_pending : forall cf st tr e, is_reload e ->
+  (fst (step cf st e)).(st_pend) = st.(st_pend) /\
+  fates (snd (step cf st e)) = [] /\
+  (forall x, In x (snd (step cf st e)) -> is_spawn x = false) /\
+  ((forall i, In i (fated tr) -> i < n_calls tr) -> forall n, waiting (tr ++ [(e, snd (step cf st e))]) n = waiting tr n).
+Proof. exact reload_keeps_pending. Qed.
+Print Assumptions C19_reload_keeps_pending.
+
+(* spelled out for the success case: the calls waiting *before* the reload are the ones passed on / answered when the name
+   is taken *after* it, in their order of arrival *)
+Theorem C19_held_once_in_order_across_reload : forall cf h st tr e c s k,
+  wk_services cf /\ wk_history h -> wk_event e -> is_reload e -> after cf h = (st, tr) ->
+  connected st c = true -> assoc k st.(st_owners) = None ->
+  let st1 := fst (step cf st e) in
+  let o := snd (step cf st1 (ERequest c s k)) in
+  let W := waiting tr (Wk k) in
+  let allowed := fun w : call => cf.(pol_deliver) (k :: names_of st.(st_owners) c) w.(c_class) in
+  filter is_fwd o = map (fwd_to c) (filter (fun w => w.(c_auto) && live tr w.(c_conn) && allowed w) W) /\
+  filter is_started o = map started_to (filter (fun w => live tr w.(c_conn) && negb w.(c_auto)) W) /\
+  waiting ((tr ++ [(e, snd (step cf st e))]) ++ [(ERequest c s k, o)]) (Wk k) = [].
+Proof. exact held_once_in_order_across_reload. Qed.
+Print Assumptions C19_held_once_in_order_across_reload.
+
 (* ---- F19.2.  The literal reading "the callers of the process that failed are answered" (and nobody else): *)
-Definition C19_failure_full_statement : Prop := forall cf h st tr sid r p er, wk_services cf -> after cf h = (st, tr) ->
+Definition C19_failure_full_statement : Prop := forall cf h st tr sid r p er, wk_services cf /\ wk_history h -> after cf h = (st, tr) ->
   find_sid sid st.(st_pend) = Some p -> child_error r = Some er ->
   snd (step cf st (EChild sid r)) = map (fail_to tr er) (waiting tr p.(p_name)).
 
 (* holds when no other pending activation shares the Exec line ... *)
-Theorem C19_failure_own_name_partial : forall cf h st tr sid r p er, wk_services cf -> after cf h = (st, tr) ->
+Theorem C19_failure_own_name_partial : forall cf h st tr sid r p er, wk_services cf /\ wk_history h -> after cf h = (st, tr) ->
   find_sid sid st.(st_pend) = Some p -> child_error r = Some er ->
   (forall q, In q st.(st_pend) -> p_exec q = p_exec p -> q = p) ->
   snd (step cf st (EChild sid r)) = map (fail_to tr er) (waiting tr p.(p_name)).
@@ -160,15 +186,20 @@ Proof. exact helper_total. Qed.
 Print Assumptions C19_helper_total.
 
 (* ---- non-vacuity *)
-Example ex_wk_services : wk_services (std_cfg [mkService (Wk 1) 1 true; mkService (Wk 2) 1 true] 50).
-Proof. intros s [<-|[<-|[]]]; eexists; reflexivity. Qed.
+Example ex_wk_services : wk_services (std_cfg [mkService (Wk 1) 1 true; mkService (Wk 2) 1 true] 50) /\
+  wk_history [EConnect; ESend 0 1 (Wk 1) false 0; EReload 0 2; ESetServices [mkService (Wk 2) 1 true]; ERequest 0 3 1].
+Proof.
+  split; [intros s [<-|[<-|[]]]; eexists; reflexivity|].
+  intros e [<-|[<-|[<-|[<-|[<-|[]]]]]]; simpl; auto. intros s [<-|[]]. eexists. reflexivity.
+Qed.
 
-(* two callers and a StartServiceByName caller wait; one process is started; the name is taken: replies and messages in order *)
+(* two callers and a StartServiceByName caller wait; one process is started; the configuration is reloaded and the service
+   file removed; the name is taken: replies and messages in order *)
 Example ex_history :
-  snd (run (std_cfg [mkService (Wk 1) 1 true] 50) init
+  snd (run (std_cfg [mkService (Wk 1) 1 true] 50) (start (std_cfg [mkService (Wk 1) 1 true] 50))
            [EConnect; EConnect; ESend 0 1 (Wk 1) false 0; EStart 1 1 (Wk 1); ESend 1 2 (Wk 1) false 2; ESend 0 2 (Wk 1) false 0;
-            EConnect; ERequest 2 1 1])
-  = [[]; []; [OSpawn 0 (Wk 1) 1]; []; []; []; [];
+            EReload 0 9; ESetServices []; EConnect; ERequest 2 1 1])
+  = [[]; []; [OSpawn 0 (Wk 1) 1]; []; []; []; [ODrv 0 9 0]; []; [];
      [OStarted 1 1 1 1; OFwd 2 0 0 1; OErr 1 2 2 EAccessDenied; OFwd 2 3 0 2; ODrv 2 1 1]].
 Proof. vm_compute. reflexivity. Qed.
 
